@@ -247,7 +247,7 @@ def _fit_case(args):
         terms = s(0, n_splines=n_splines, spline_order=order, constraints=con, lam=lam, edge_knots=ek) + s(1, n_splines=5)
     cls = getattr(pygam, cls_name)
     kw = dict(expectile=0.7) if cls_name == 'ExpectileGAM' else {}
-    gam = cls(terms, tol=1e-8, max_iter=500, **kw)
+    gam = cls(terms, tol=1e-8, max_iter=500, callbacks=['deviance', 'diffs', 'coef'], **kw)
     buf = io.StringIO()
     try:
         with contextlib.redirect_stdout(buf):
@@ -279,10 +279,68 @@ def _fit_case(args):
     res['unit'] = unit
     idx = gam.terms.get_coef_indices(0)
     res['coef_scale'] = float(np.abs(gam.coef_[idx]).max())
+    # the soft-constraint identity / bound of Props/C05 (violations_are_partial_sums, *_fixed_point_violation_bound):
+    # the last linear solve satisfies lamC C(b_old) b_new + rho b_new = r on the rows of the constrained term, with
+    # r = B' W^2 (z - B b_new) - (S + P) b_new evaluated from independent NumPy formulas; hence the masked differences of
+    # b_new are the (double) partial sums of -(r - rho b_new) / lamC
+    fam = {'LinearGAM': ('normal', 'identity'), 'PoissonGAM': ('poisson', 'log'), 'LogisticGAM': ('binomial', 'logit'),
+           'GammaGAM': ('gamma', 'log')}.get(cls_name)
+    if fam is not None and not tensor and len(gam.logs_.get('coef', [])) >= 1:
+        try:
+            res['viol'] = _violation_identity(gam, X, y, fam, kind, idx)
+        except Exception as e:  # noqa
+            res['viol'] = dict(status='error', msg='%s: %s' % (type(e).__name__, str(e)[:160]))
     return res
 
 
+def _violation_identity(gam, X, y, fam, kind, idx):
+    from harness.gen import fitgen
+    dist, link = fam
+    b_old = np.asarray(gam.logs_['coef'][-1], dtype=float)
+    b_new = np.asarray(gam.coef_, dtype=float)
+    B = dense(gam._modelmat(X))
+    P = dense(gam.terms.build_penalties())
+    m = B.shape[1]
+    S = np.sqrt(np.finfo(np.float64).eps) * np.eye(m)
+    eta = B @ b_old
+    mu = fitgen.np_mu(link, 1, eta)
+    g = fitgen.np_grad(link, 1, mu)
+    V = fitgen.np_V(dist, 1, mu)
+    w2 = 1.0 / (V * g * g)
+    z = eta + (y - mu) * g
+    if not (np.isfinite(w2).all() and np.isfinite(z).all()):
+        return dict(status='not-judged', why='non-finite working weights')
+    r_full = B.T @ (w2 * (z - B @ b_new)) - (S + P) @ b_new
+    lamC = float(gam._constraint_lam)
+    rho = float(gam._constraint_l2)
+    c_old, c_new, r = b_old[idx], b_new[idx], r_full[idx]
+    n = len(idx)
+    # hypothesis `hfix`, validated with the real constraint matrix of the term at the entering coefficients
+    Creal = dense(gam.terms[0].build_constraints(c_old, lamC, rho))
+    scale_r = float(np.abs(B.T).dot(np.abs(w2 * z)).max() + np.abs(P).dot(np.abs(b_new)).max() + lamC * np.abs(c_new).max() * 0 + 1e-300)
+    hfix_err = float(np.abs(Creal @ c_new - r).max())
+    rr = r - rho * c_new
+    bound = float((np.abs(r).sum() + rho * np.abs(c_new).sum()) / lamC)
+    if kind.startswith('mono'):
+        d_old, d_new = np.diff(c_old), np.diff(c_new)
+        mask = (d_old < 0) if kind.endswith('inc') else (d_old > 0)
+        u = mask * d_new
+        pred = -np.cumsum(rr)[:-1] / lamC
+        factor = 1.0
+    else:
+        d_old, d_new = np.diff(c_old, n=2), np.diff(c_new, n=2)
+        mask = (d_old < 0) if kind == 'convex' else (d_old > 0)
+        u = mask * d_new
+        pred = np.cumsum(np.cumsum(rr))[:-2] / lamC
+        factor = float(n)
+    # does the constraint carry the conditioning ridge? (only when some difference violates: Cs.nnz > 0)
+    return dict(status='ok', n=n, n_masked=int(mask.sum()), lamC=lamC, rho=rho, hfix_err=hfix_err, scale_r=scale_r,
+                max_u=float(np.abs(u).max()) if len(u) else 0.0, identity_err=float(np.abs(u - pred).max()) if len(u) else 0.0,
+                bound=bound, factor=factor, coef_max=float(np.abs(c_new).max()), cond_note=float(np.abs(r).sum()))
+
+
 def run_fits(ctx):
+    ctx.stream('con.violation', 'last linear solve of constrained fits (normal / Poisson / binomial / gamma, non-tensor): the rows of the penalised normal equations of the constrained term (hypothesis of the bound theorems) hold with the real constraint matrix at the entering coefficients, the masked differences of the produced coefficients are the (double) partial sums of -(r - rho b)/1e9, and are bounded by (n x)(sum|r| + rho sum|b|)/1e9')
     st = 'con.fit'
     ctx.stream(st, 'converged constrained fits on contradicting data: partial dependence has the requested shape on a 401-point grid over [-0.5, 1.5] x domain (violation <= 1e-6 x (1 + function range))')
     rng = ctx.subrng('fits')
@@ -314,6 +372,29 @@ def run_fits(ctx):
         if r['status'] == 'error':
             ctx.fail(st, dict(kind='exception'), dict(sig, seed=seed), observed=r['msg'], expected='a fit or a ValueError', oracle='constrained fit must not raise an unrelated exception')
             continue
+        v = r.get('viol') if r['status'] == 'ok' else None
+        if v is not None:
+            st2 = 'con.violation'
+            ctx.case(st2, sig, nontrivial=bool(v.get('n_masked', 0)), sample=dict(sig, result=v))
+            ctx.count('violation identity', v['status'] + ('' if v['status'] != 'ok' else ('/%d masked' % min(v['n_masked'], 3) + ('+' if v['n_masked'] > 3 else ''))))
+            if v['status'] == 'error':
+                ctx.fail(st2, dict(kind='exception'), dict(sig, seed=seed), observed=v['msg'], expected='the constraint rows of the last solve', oracle='violation identity could not be evaluated')
+            elif v['status'] == 'ok' and v['n_masked'] > 0:
+                # rounding of the 1e9-weighted solve: backward error eps x (|C_total| |b| + |r| terms)
+                tol_rows = 1e-6 * (v['scale_r'] + v['lamC'] * v['coef_max'] * 4) * 1e-3
+                if v['hfix_err'] > max(tol_rows, 1e-9 * v['scale_r']):
+                    ctx.fail(st2, dict(kind='fixed-point-rows', constraint=kind, cls=cls_name), dict(sig, seed=seed),
+                             observed=dict(row_error=v['hfix_err'], scale=v['scale_r']), expected='lamC C(b_old) b_new + rho b_new = B\'W^2(z - B b_new) - (S + P) b_new on the rows of the constrained term',
+                             oracle='rows of the penalised normal equations of the last iteration (independent NumPy working weights / pseudo-data)')
+                tol_id = 1e-5 * v['factor'] * v['bound'] + 1e-13 * v['coef_max']
+                if v['identity_err'] > tol_id:
+                    ctx.fail(st2, dict(kind='identity', constraint=kind, cls=cls_name), dict(sig, seed=seed),
+                             observed=dict(identity_error=v['identity_err'], tolerance=tol_id, max_violation=v['max_u']),
+                             expected='masked differences = (double) partial sums of -(r - rho b)/lamC', oracle='Props/C05 violations_are_partial_sums on the real fit')
+                if v['max_u'] > v['factor'] * v['bound'] * (1 + 1e-6) + 1e-13 * v['coef_max']:
+                    ctx.fail(st2, dict(kind='bound', constraint=kind, cls=cls_name), dict(sig, seed=seed),
+                             observed=dict(max_violation=v['max_u'], bound=v['factor'] * v['bound']),
+                             expected='|violating difference| <= (n x) (sum|r| + rho sum|b|) / 1e9', oracle='Props/C05 *_fixed_point_violation_bound on the real fit')
         if r['status'] != 'ok' or not r['converged']:
             continue
         # identity-link classes: everything scales with the unit of the response; other links: link scale is absolute
